@@ -860,6 +860,25 @@ class ModelHist(Engine):
             ops.append({"op": "add_fluent", "fluent": fd, "default": ro.choice(vals) if vals and ro.random() < 0.5 else None})
             added_fl.append(fd)
         regen()
+        def timed_effect_op(faulty, usable):
+            fv = faulty and ro.random() < 0.5
+            ed = self.gen_effect(ro, world, g, list(usable), faulty="value" if fv else None)
+            if ed is None or ed["forall"]:
+                return
+            op = {"op": "add_timed_effect", "timing": ["gstart", ro.randint(1, 3)], "effect": ed}
+            if fv:
+                op["faulty"], op["why"] = "value", ed.pop("why")
+            elif timed_prior and (faulty or ro.random() < 0.4):
+                # aimed at the fluent and timing of an earlier timed effect: other kind, other value, or the same
+                tm, pe = ro.choice(timed_prior)
+                ed2 = self.clash_with(ro, world, pe)
+                if ed2 is not None:
+                    op = {"op": "add_timed_effect", "timing": tm, "effect": ed2, "faulty": "maybe-conflict"}
+                    ed = ed2
+            if op.get("faulty") != "value":
+                timed_prior.append((op["timing"], ed))
+            ops.append(op)
+
         nclones = rs.choice([1, 1, 2, 3])
         nops = ro.randint(12, 45)
         clone_at = sorted(rs.sample(range(len(ops) + 1, len(ops) + nops), min(nclones, nops - 1)))
@@ -869,6 +888,9 @@ class ModelHist(Engine):
             faulty = ro.random() < 0.25
             usable = [f for f in added_fl if all(any(subtype_of(tmap, ot, pt[1]) for o, ot in objs if o in added_obj)
                                                  for _, pt in f["params"])]
+            if profile == "temporal" and usable and ro.random() < 0.12:
+                timed_effect_op(faulty, usable)
+                continue
             if kind == "hierarchical" and ro.random() < 0.35:
                 tn = [t_ for t_, _ in world["types"]]
                 x = ro.random()
@@ -1079,22 +1101,7 @@ class ModelHist(Engine):
                     ops.append({"op": "add_timed_goal", "interval": [["gstart", ro.randint(1, 3)], ["gstart", ro.randint(4, 6)]],
                                 "goal": g.bool_expr(1)})
                 else:
-                    fv = faulty and ro.random() < 0.5
-                    ed = self.gen_effect(ro, world, g, [f for f in usable], faulty="value" if fv else None)
-                    if ed is None or ed["forall"]:
-                        continue
-                    op = {"op": "add_timed_effect", "timing": ["gstart", ro.randint(1, 3)], "effect": ed}
-                    if fv:
-                        op["faulty"], op["why"] = "value", ed.pop("why")
-                    elif faulty and timed_prior:
-                        tm, pe = ro.choice(timed_prior)
-                        ed2 = self.clash_with(ro, world, pe)
-                        if ed2 is not None:
-                            op = {"op": "add_timed_effect", "timing": tm, "effect": ed2, "faulty": "maybe-conflict"}
-                            ed = ed2
-                    if op.get("faulty") != "value":
-                        timed_prior.append((op["timing"], ed))
-                    ops.append(op)
+                    timed_effect_op(faulty, usable)
             elif r < 0.90:
                 ops.append({"op": ro.choice(["add_traj", "add_invariant"]), "kind": ro.choice(["always", "sometime", "at_most_once"]),
                             "e": g.bool_expr(1)})
